@@ -88,7 +88,9 @@ def _directive(form, style, tool, name):
     c = style + " " + tool + ": "
     return {"same-line": c + f"ignore[{name}]", "same-line-bare": c + "ignore", "next-line": c + f"ignore-next-line[{name}]",
             "block-start": c + f"ignore-start {name}", "block-end": c + "ignore-end",
-            "file": c + f"ignore-file[{name}]", "file-bare": c + "ignore-file"}[form]
+            "file": c + f"ignore-file[{name}]", "file-bare": c + "ignore-file",
+            # the space-separated spellings the documentation also uses
+            "same-line-space": c + f"ignore {name}", "file-space": c + f"ignore-file {name}"}[form]
 
 
 def make_h_scope(nlines):
@@ -205,7 +207,8 @@ def h_every_linter(ctx):
     tname = ctx.pick("trigger", names)
     lang, rule_prefix, vline, text = triggers.T[tname]
     style = "#" if lang == "python" else "//"
-    form = ctx.pick("form", ("same-line", "next-line", "block", "file", "same-line-other", "next-line-other", "file-other", "block-far"))
+    form = ctx.pick("form", ("same-line", "next-line", "block", "file", "same-line-other", "next-line-other", "file-other", "block-far",
+                             "same-line-space-other", "file-space-other", "next-line-trailing-other"))
     spelling = ctx.pick("spelling", ("prefix", "full", "wildcard-upper"))
     ctx.note("linter", rule_prefix.split(".")[0])
     ctx.note("form", form)
@@ -227,6 +230,14 @@ def h_every_linter(ctx):
     f = form.replace("-other", "")
     if f == "same-line":
         lines[vline - 1] += "  " + _directive("same-line", style, "thailint", name)
+    elif f == "same-line-space":
+        lines[vline - 1] += "  " + _directive("same-line-space", style, "thailint", name)
+    elif f == "next-line-trailing":
+        # a next-line directive written at the end of the violation's own line: its scope is the line below
+        lines[vline - 1] += "  " + _directive("next-line", style, "thailint", name)
+    elif f == "file-space":
+        lines.insert(0, _directive("file-space", style, "thailint", name))
+        shift_at, shift = 1, 1
     elif f == "next-line":
         lines.insert(vline - 1, _directive("next-line", style, "thailint", name))
         shift_at, shift = vline, 1
@@ -243,7 +254,7 @@ def h_every_linter(ctx):
         lines.insert(0, _directive("file", style, "thailint", name))
         shift_at, shift = 1, 1
     after = _lint_text(tname, "\n".join(lines))
-    directive_texts = [_directive(k, style, "thailint", name) for k in ("same-line", "next-line", "block-start", "block-end", "file")]
+    directive_texts = [_directive(k, style, "thailint", name) for k in ("same-line", "next-line", "block-start", "block-end", "file", "same-line-space", "file-space")]
 
     def key(v, shifted):
         ln = v.line
@@ -287,7 +298,11 @@ def h_linter_ignore(ctx):
     from src.core.config_parser import _normalize_config_keys
     from src.orchestrator.core import Orchestrator
     section, prefix, tname = ctx.pick("linter_and_trigger", IGNORE_SECTIONS)
-    form = ctx.pick("pattern_form", ("**/name", "dir/**", "exact-relative", "substring", "non-matching"))
+    form = ctx.pick("pattern_form", ("**/name", "dir/**", "**/dir/**", "**/dir/sub/**", "exact-relative", "substring", "non-matching"))
+    # where the file lives inside the project (the directory named by the pattern at the root, deeper, or with a level below it)
+    loc = ctx.pick("file_location", ("src", "pkg/src", "src/inner")) if form in ("**/name", "**/dir/**", "substring", "non-matching") else \
+        ctx.pick("file_location", ("src", "src/inner")) if form == "dir/**" else \
+        ctx.pick("file_location", ("src/inner", "pkg/src/inner")) if form == "**/dir/sub/**" else "src"
     spelled = section if ctx.pick("spelling", ("hyphen", "underscore")) == "hyphen" else section.replace("-", "_")
     d = _proj()
     texts = {}
@@ -298,12 +313,14 @@ def h_linter_ignore(ctx):
     else:
         texts = {tname: triggers.T[tname][3]}
     stem = tname.rsplit(".", 1)[0]
-    pattern = {"**/name": "**/" + tname, "dir/**": "src/**", "exact-relative": "src/" + tname, "substring": stem,
+    pattern = {"**/name": "**/" + tname, "dir/**": "src/**", "**/dir/**": "**/src/**", "**/dir/sub/**": "**/src/inner/**",
+               "exact-relative": "src/" + tname, "substring": stem,
                "non-matching": "**/no_such_file_anywhere.xyz"}[form]
     paths = []
+    (d / loc).mkdir(parents=True, exist_ok=True)
     for n, c in texts.items():
-        (d / "src" / n).write_text(c)
-        paths.append(d / "src" / n)
+        (d / loc / n).write_text(c)
+        paths.append(d / loc / n)
     base_cfg = {"dry": {"enabled": True}}
     cfg = {"dry": {"enabled": True}}
     cfg.setdefault(spelled, {})
@@ -320,7 +337,7 @@ def h_linter_ignore(ctx):
     finally:
         for p in paths:
             p.unlink()
-    target = str(d / "src" / tname)
+    target = str(d / loc / tname)
 
     def k(v):
         return (v.rule_id, v.file_path, v.line, v.message)
